@@ -248,7 +248,7 @@ fn check(case: &Case, ctx: &mut Ctx) {
     let key = pl.key.to_vec();
     if eligible {
         if !after.contains_key(&key) {
-            ctx.fail(format!("valid_record_not_stored/{:?}/{:?}", case.kind, case.path), format!("result {direct_result:?}"));
+            ctx.precondition_failed(format!("valid_record_not_stored/{:?}/{:?}", case.kind, case.path), format!("result {direct_result:?}"));
         }
     } else if !before.contains_key(&key) && after.contains_key(&key) {
         ctx.fail("unpaid_new_data_stored", format!("{:?}", case.kind));
